@@ -132,6 +132,20 @@ def judgeParse (o : VerOps) (s : Bytes) (impl : String) : Verdict := Id.run do
   -- header rule of C18
   if o.ver != .v20 && !(o.ver.header.isPrefixOf s) && impl != "err 1:-" then
     v := v.add "C18" "want 1:- (header)"
+  -- C18, v3: only base metrics missing (everything written is legal, nothing repeated or unknown) ⇒ *ErrMissing naming the
+  -- first missing one in specification order
+  if o.ver == .v30 || o.ver == .v31 then
+    match Spec.stripPrefix (o.ver.header ++ [Spec.SLASH]) s with
+    | some rest =>
+      match Spec.readPairs (Spec.splitSlash rest) with
+      | some w =>
+        let names := w.map (·.1)
+        if Spec.allLegalB Spec.V3.metrics w && Spec.nodupB names then
+          match (Spec.abvs Spec.V3.base).find? (fun a => !names.contains a) with
+          | some a => if impl != s!"err 103:{hexB a}" then v := v.add "C18" s!"want err 103:{hexB a} (first missing base metric)"
+          | none => pure ()
+      | none => pure ()
+    | none => pure ()
   match w?, f with
   | some w, ["ok", _obj, vec, gets, rt] =>
     if gets != specGets o w then v := v.add "C06" s!"want gets={specGets o w}"
